@@ -596,3 +596,5 @@ silent("C03", "multiset-window-test-positive", [E(MULTI, "numba_build_multi_skip
                         )
                     ]
 """)], "the same selection with the arms exchanged and the test positive")
+fire("C03", "window-args-always-doubled", "R3.8", E(BASE, "BaseCooccurrenceVectorizer.__init__", '                self._window_args.append(tuple(args.values()))\n                if self.window_orientations[i] == "directional":', '                self._window_args.append(tuple(args.values()))\n                if True:'),
+     "every orientation gets two window-argument entries")
